@@ -81,6 +81,9 @@ func (b *StoredBatch) LastOffset() int64 {
 
 // Partition is one topic partition of the model.
 type Partition struct {
+	// OpenTxn: the last OpenTxn offsets of the log belong to a transaction that
+	// is still open: the last stable offset is LEO - OpenTxn
+	OpenTxn int64
 	Topic       string
 	ID          int32
 	Leader      int32
